@@ -102,7 +102,9 @@ class ApplyStep:
             if isinstance(n, ast.If) and q.enclosing(n, (ast.For, ast.While)) is None:
                 c = q.canon_atom(n.test)
                 if c and c[1] == self.step + '.transition' and ((c[0] == 'truthy' and c[3]) or (c[0] == 'is' and c[2] == 'None' and not c[3])):
-                    self.trans_if = n
+                    has_action = any(s_.label == 'action' and q.in_block(s_.node, n.body) for s_ in self.sites)
+                    if self.trans_if is None or has_action:
+                        self.trans_if = n
         for lp in loops:
             if lp in (self.exit_loop, self.entry_loop):
                 continue
